@@ -1,10 +1,11 @@
 (* C06: the cue lists of both writers, for every snapshot sequence: one group of cues per snapshot, every cue of the group
-   over that snapshot's interval (rounded to the millisecond; the unbounded last one ends 10 s after it begins), the group
-   holding exactly the visible characters of the snapshot's Br/Text leaves, in order — the latter outside the recorded
-   findings, i.e. when the writers' dispatch meets no element that it skips although it holds text. *)
+   over that snapshot's interval (rounded to the millisecond; the unbounded last one ends 10 s after it begins), every cue holding
+   visible text, the group holding exactly the visible characters of the snapshot's Br/Text leaves outside ruby annotations, in
+   order — the latter when the writers' dispatch meets no element that it skips although it holds text (which the content model
+   excludes: Proofs/C06/Content.v) and, SubRip only, the text holds no "<". *)
 From TT Require Import Model.Doc Gen.StyleTables Model.Isd Model.SigTimes Model.TimeCode Model.IsdFilters Gen.CueTables Model.CueWriter.
 From TT Require Import Model.CueTriggers Spec.IsdSpec Spec.CueSpec Proofs.Common.ElemInd Proofs.C01.Lwsp Proofs.C01.Main.
-From TT Require Import Proofs.C02.Complete Proofs.C06.Filters Proofs.C06.Inline Proofs.C06.Loop.
+From TT Require Import Proofs.C02.Complete Proofs.C06.Filters Proofs.C06.Inline Proofs.C06.Strip Proofs.C06.Loop.
 
 (* ---- the filter lists keep the text ------------------------------------------------------------------------------------ *)
 Definition snapshot_shape (rs : list elem) : bool := regions_shape rs && paragraphs_shape rs.
@@ -22,37 +23,53 @@ Proof.
   rewrite forallb_forall in H2. apply H2, Hc.
 Qed.
 
-Lemma leaves_text_map (f : elem -> elem) rs :
-  (forall e, shown_leaves (f e) = shown_leaves e) -> flat_map leaves_text (map f rs) = flat_map leaves_text rs.
-Proof.
-  intros H. rewrite flat_map_concat_map, map_map, <- flat_map_concat_map. apply flat_map_ext_in. intros r _.
-  unfold leaves_text. rewrite H. reflexivity.
-Qed.
-Lemma leaves_text_shown rs rs' : flat_map shown_leaves rs = flat_map shown_leaves rs' -> flat_map leaves_text rs = flat_map leaves_text rs'.
-Proof.
-  intros H. unfold leaves_text. rewrite <- !(flat_map_flat_map shown_leaves leaf_chars). rewrite H. reflexivity.
-Qed.
-
 (* the filter lists the writers use: [merge regions;] merge paragraphs; supported styles; default styles *)
 Definition writer_filters (merge : bool) (c : supported_cfg) (d : smap) : list isd_filter :=
   (if merge then [FMergeRegions] else []) ++ [FMergeParagraphs; FSupported c; FDefaults d].
 
+Section FiltersSel.
+  Variable skip : kind -> bool.
+  Hypothesis skip_annot : forall k, skip k = true -> annot_kind k = true.
+
+  Lemma sel_text_map (f : elem -> elem) rs :
+    (forall e, sel_leaves skip (f e) = sel_leaves skip e) -> flat_map (sel_text skip) (map f rs) = flat_map (sel_text skip) rs.
+  Proof.
+    intros H. rewrite flat_map_concat_map, map_map, <- flat_map_concat_map. apply flat_map_ext_in. intros r _.
+    unfold sel_text. rewrite H. reflexivity.
+  Qed.
+  Lemma sel_text_leaves rs rs' :
+    flat_map (sel_leaves skip) rs = flat_map (sel_leaves skip) rs' -> flat_map (sel_text skip) rs = flat_map (sel_text skip) rs'.
+  Proof.
+    intros H. unfold sel_text. rewrite <- !(flat_map_flat_map (sel_leaves skip) leaf_chars). rewrite H. reflexivity.
+  Qed.
+
+  Theorem filters_preserve_sel merge c d rs :
+    snapshot_shape rs = true -> flat_map (sel_text skip) (apply_filters (writer_filters merge c d) rs) = flat_map (sel_text skip) rs.
+  Proof.
+    intros H. unfold writer_filters, apply_filters.
+    assert (G : forall rs0, snapshot_shape rs0 = true ->
+                flat_map (sel_text skip) (fold_left (fun acc f => apply_filter f acc) [FMergeParagraphs; FSupported c; FDefaults d] rs0)
+                = flat_map (sel_text skip) rs0).
+    { intros rs0 H0. cbn [fold_left apply_filter].
+      rewrite (sel_text_map _ _ (fun e => filter_defaults_sel skip d e None)), (sel_text_map _ _ (filter_supported_sel skip c)).
+      apply (merge_paragraphs_sel skip skip_annot). unfold snapshot_shape in H0. apply andb_true_iff in H0 as [_ H0]. exact H0. }
+    rewrite fold_left_app. destruct merge.
+    - change (fold_left (fun acc f => apply_filter f acc) [FMergeRegions] rs) with (merge_regions rs).
+      rewrite (G _ (merge_regions_shape rs H)). apply sel_text_leaves, (merge_regions_sel skip skip_annot).
+      unfold snapshot_shape in H. apply andb_true_iff in H as [H _]. exact H.
+    - exact (G rs H).
+  Qed.
+End FiltersSel.
+
 Theorem filters_preserve_text merge c d rs :
   snapshot_shape rs = true -> flat_map leaves_text (apply_filters (writer_filters merge c d) rs) = flat_map leaves_text rs.
 Proof.
-  intros H. unfold writer_filters, apply_filters.
-  assert (G : forall rs0, snapshot_shape rs0 = true ->
-              flat_map leaves_text (fold_left (fun acc f => apply_filter f acc) [FMergeParagraphs; FSupported c; FDefaults d] rs0)
-              = flat_map leaves_text rs0).
-  { intros rs0 H0. cbn [fold_left apply_filter].
-    rewrite (leaves_text_map _ _ (fun e => filter_defaults_leaves d e None)), (leaves_text_map _ _ (filter_supported_leaves c)).
-    apply merge_paragraphs_preserves_leaves. unfold snapshot_shape in H0. apply andb_true_iff in H0 as [_ H0]. exact H0. }
-  rewrite fold_left_app. destruct merge.
-  - change (fold_left (fun acc f => apply_filter f acc) [FMergeRegions] rs) with (merge_regions rs).
-    rewrite (G _ (merge_regions_shape rs H)). apply leaves_text_shown, merge_regions_preserves_leaves.
-    unfold snapshot_shape in H. apply andb_true_iff in H as [H _]. exact H.
-  - exact (G rs H).
+  intros H. pose proof (filters_preserve_sel sk_none (fun k Hk => ltac:(discriminate Hk)) merge c d rs H) as G.
+  rewrite !(flat_map_ext_in _ _ _ (fun e _ => sel_text_none e)) in G. exact G.
 Qed.
+Theorem filters_preserve_base merge c d rs :
+  snapshot_shape rs = true -> flat_map base_text (apply_filters (writer_filters merge c d) rs) = flat_map base_text rs.
+Proof. intros H. exact (filters_preserve_sel annot_kind (fun k Hk => Hk) merge c d rs H). Qed.
 
 (* the generated tables have this form (re-checked whenever Gen/CueTables.v changes) *)
 Lemma srt_filters_form : exists c d, srt_filters = writer_filters true c d.
@@ -71,10 +88,11 @@ Definition times_ok (t : Q) (next : option Q) (c : cue) : Prop :=
   | Some t' => c_end c = Some (round_ms t')
   | None => c_end c = Some (round_ms t + 10000) \/ c_end c = None
   end.
-(* the group holds the snapshot's visible text, when the snapshot has the shape snapshots have and the dispatch loses nothing *)
+(* the group holds the snapshot's visible text (outside ruby annotations), when the snapshot has the shape snapshots have and the
+   dispatch loses nothing *)
 Definition text_ok (sees_all : list elem -> bool) (fs : list isd_filter) (regions : list elem) (cs : list cue) : Prop :=
   snapshot_shape regions = true -> sees_all (apply_filters fs regions) = true ->
-  visc (flat_map cue_chars cs) = visc (flat_map leaves_text regions).
+  visc (flat_map cue_chars cs) = visc (flat_map base_text regions).
 
 Inductive cue_groups (R : Q -> option Q -> list elem -> list cue -> Prop) : list (Q * list elem) -> list cue -> Prop :=
 | cg_nil : cue_groups R [] []
@@ -89,86 +107,129 @@ Proof.
   destruct (q_ms q) as [m|] eqn:E; [|discriminate]. cbn [bind]. intros H. injection H as <-. rewrite (q_ms_round q m E). reflexivity.
 Qed.
 
-Definition group_ok (sees_all : list elem -> bool) (fs : list isd_filter) (t : Q) (next : option Q) (regions : list elem) (cs : list cue) : Prop :=
-  Forall (times_ok t next) cs /\ text_ok sees_all fs regions cs.
+(* every cue of the group: its interval, its blank test failed, its characters are not all white space; the group: its text *)
+Definition kept (blank : cue -> bool) (c : cue) : Prop := blank c = false /\ nonblank c.
+Definition group_ok (blank : cue -> bool) (sees_all : list elem -> bool) (fs : list isd_filter) (t : Q) (next : option Q) (regions : list elem) (cs : list cue) : Prop :=
+  Forall (times_ok t next) cs /\ Forall (kept blank) cs /\ text_ok sees_all fs regions cs.
 
-Lemma by_snapshot_groups sees_all merge c d : forall seq cs,
-  by_snapshot (snapshot_spec sees_all (writer_filters merge c d)) seq cs ->
-  cue_groups (group_ok sees_all (writer_filters merge c d)) seq cs.
+Lemma by_snapshot_groups blank sees_all merge c d : forall seq cs,
+  by_snapshot (snapshot_spec blank sees_all (writer_filters merge c d)) seq cs ->
+  cue_groups (group_ok blank sees_all (writer_filters merge c d)) seq cs.
 Proof.
   intros seq cs B. induction B as [|t regions seq b en cs rest Hb Hen [Hat Htxt] _ IH]; constructor; [|exact IH].
-  split.
+  split; [|split].
   - apply q_ms_round in Hb. apply oq_ms_round in Hen. subst b en. eapply Forall_impl; [|exact Hat].
-    intros x [Hx1 Hx2]. split; [exact Hx1|]. destruct (next_time seq); cbn [option_map] in Hx2; [exact Hx2 | right; exact Hx2].
-  - intros Hs Hok. rewrite (Htxt Hok). apply f_equal, filters_preserve_text, Hs.
+    intros x (Hx1 & Hx2 & _). split; [exact Hx1|]. destruct (next_time seq); cbn [option_map] in Hx2; [exact Hx2 | right; exact Hx2].
+  - eapply Forall_impl; [|exact Hat]. intros x (_ & _ & Hx). exact Hx.
+  - intros Hs Hok. rewrite (Htxt Hok). apply f_equal, filters_preserve_base, Hs.
 Qed.
 
-(* finish(): only the last cue changes (it gets its default end, or goes if it is blank) *)
-Lemma finish_cues_app esc x y : y <> [] -> finish_cues esc (x ++ y) = x ++ finish_cues esc y.
+(* finish(): the last cue gets its default end (it is not blank: it was kept); with fill, so do the earlier cues without an end *)
+Lemma finish_cues_app fill blank x y : y <> [] ->
+  finish_cues fill blank (x ++ y) = map (fun c => if fill then default_end c else c) x ++ finish_cues fill blank y.
 Proof.
-  intros Hy. induction x as [|c x IH]; [reflexivity|]. cbn [app finish_cues]. rewrite IH.
+  intros Hy. induction x as [|c x IH]; [reflexivity|]. cbn [app finish_cues map]. rewrite IH.
   destruct (x ++ y) eqn:E; [|reflexivity]. apply app_eq_nil in E as [_ E]. contradiction.
 Qed.
-Lemma finish_cues_cons esc c c' cs : finish_cues esc (c :: c' :: cs) = c :: finish_cues esc (c' :: cs).
+Lemma finish_cues_cons fill blank c c' cs :
+  finish_cues fill blank (c :: c' :: cs) = (if fill then default_end c else c) :: finish_cues fill blank (c' :: cs).
 Proof. reflexivity. Qed.
-Lemma finish_times esc t : forall cs, Forall (times_ok t None) cs -> Forall (times_ok t None) (finish_cues esc cs).
+Lemma default_end_items c : c_items (default_end c) = c_items c.
+Proof. unfold default_end. destruct (c_end c); reflexivity. Qed.
+Lemma default_end_begin c : c_begin (default_end c) = c_begin c.
+Proof. unfold default_end. destruct (c_end c); reflexivity. Qed.
+Lemma default_end_chars c : cue_chars (default_end c) = cue_chars c.
+Proof. unfold cue_chars. rewrite default_end_items. reflexivity. Qed.
+Definition items_only (blank : cue -> bool) : Prop := forall c c', c_items c = c_items c' -> blank c = blank c'.
+Lemma cue_blank_items strip esc : items_only (cue_blank strip esc).
+Proof. intros c c' E. unfold cue_blank, cue_text. rewrite E. reflexivity. Qed.
+Lemma default_end_kept blank c : items_only blank -> kept blank c -> kept blank (default_end c).
 Proof.
-  induction cs as [|c cs IH]; intros H; [constructor|]. inversion H as [|? ? Hc Hcs]; subst. destruct cs as [|c' cs'].
-  - cbn [finish_cues]. destruct (c_end c) eqn:Ee; [exact H|]. destruct (only_whitespace (cue_text esc c)); [constructor|].
-    constructor; [|constructor]. destruct Hc as [Hb _]. split; [exact Hb|]. left. cbn [c_end c_begin]. rewrite Hb. reflexivity.
-  - rewrite finish_cues_cons. constructor; [exact Hc | apply IH, Hcs].
+  intros Hb [H1 H2]. split; [rewrite <- H1; apply Hb, default_end_items | unfold nonblank; rewrite default_end_chars; exact H2].
 Qed.
-Lemma finish_chars esc : esc_keeps esc -> forall cs, visc (flat_map cue_chars (finish_cues esc cs)) = visc (flat_map cue_chars cs).
+Lemma default_end_times t c : times_ok t None c -> times_ok t None (default_end c) /\ c_end (default_end c) <> None.
 Proof.
-  intros He. induction cs as [|c cs IH]; [reflexivity|]. destruct cs as [|c' cs'].
-  - cbn [finish_cues]. destruct (c_end c); [reflexivity|]. destruct (only_whitespace (cue_text esc c)) eqn:Ew; [|reflexivity].
-    cbn [flat_map]. rewrite app_nil_r. symmetry. apply (blank_cue esc c He Ew).
-  - rewrite finish_cues_cons. change (flat_map cue_chars (c :: finish_cues esc (c' :: cs'))) with (cue_chars c ++ flat_map cue_chars (finish_cues esc (c' :: cs'))).
-    change (flat_map cue_chars (c :: c' :: cs')) with (cue_chars c ++ flat_map cue_chars (c' :: cs')). rewrite !visc_app, IH. reflexivity.
+  intros [Hb He]. unfold default_end. destruct (c_end c) eqn:E.
+  - split; [split; [exact Hb | rewrite E; exact He] | rewrite E; discriminate].
+  - split; [split; [exact Hb | left; cbn [c_end]; rewrite Hb; reflexivity] | discriminate].
 Qed.
-Lemma finish_group esc sees_all fs t regions cs : esc_keeps esc ->
-  group_ok sees_all fs t None regions cs -> group_ok sees_all fs t None regions (finish_cues esc cs).
-Proof.
-  intros He [H1 H2]. split; [apply finish_times, H1|]. intros Hs Hok. rewrite (finish_chars esc He). apply H2; assumption.
-Qed.
-Lemma finish_not_last esc sees_all fs t t' regions cs :
-  group_ok sees_all fs t (Some t') regions cs -> finish_cues esc cs = cs.
-Proof.
-  intros [H _]. induction cs as [|c cs IH]; [reflexivity|]. inversion H as [|? ? Hc Hcs]; subst. destruct cs as [|c' cs'].
-  - cbn [finish_cues]. destruct Hc as [_ Hc]. rewrite Hc. reflexivity.
-  - change (finish_cues esc (c :: c' :: cs')) with (c :: finish_cues esc (c' :: cs')). rewrite (IH Hcs). reflexivity.
-Qed.
-Lemma cue_groups_nil_tail R : forall seq, cue_groups R seq [] -> forall t regions cs, R t (next_time seq) regions cs ->
-  cue_groups R ((t, regions) :: seq) cs.
-Proof. intros seq H t regions cs Hr. rewrite <- (app_nil_r cs). constructor; assumption. Qed.
+Lemma default_end_bounded t t' c : times_ok t (Some t') c -> default_end c = c.
+Proof. intros [_ He]. unfold default_end. rewrite He. reflexivity. Qed.
 
-Theorem finish_groups esc sees_all fs : esc_keeps esc -> forall seq cs,
-  cue_groups (group_ok sees_all fs) seq cs -> cue_groups (group_ok sees_all fs) seq (finish_cues esc cs).
+(* the cues of one snapshot after finish(), when they are the last cues of the list *)
+Lemma finish_last_group fill blank t next : items_only blank -> forall cs,
+  Forall (times_ok t next) cs -> Forall (kept blank) cs ->
+  Forall (times_ok t next) (finish_cues fill blank cs) /\ Forall (kept blank) (finish_cues fill blank cs) /\ map cue_chars (finish_cues fill blank cs) = map cue_chars cs.
 Proof.
-  intros He seq cs G. induction G as [|t regions seq cs rest Hr G IH]; [constructor|].
+  intros Hb. induction cs as [|c cs IH]; intros Ht Hk; [repeat split; constructor|].
+  inversion Ht as [|? ? Hc Hcs]; subst. inversion Hk as [|? ? Kc Kcs]; subst. destruct cs as [|c' cs'].
+  - cbn [finish_cues]. destruct (c_end c) eqn:Ee; [repeat split; assumption|].
+    destruct Kc as [K1 K2]. rewrite K1.
+    assert (D : default_end c = mkCue (c_id c) (c_begin c) (Some (c_begin c + 10000)) (c_items c) (c_line c) (c_textalign c))
+      by (unfold default_end; rewrite Ee; reflexivity).
+    split; [|split].
+    + constructor; [|constructor]. destruct Hc as [Hb0 He0]. rewrite D. split; [exact Hb0|]. cbn [c_end c_begin].
+      destruct next; [rewrite Ee in He0; discriminate | left; rewrite Hb0; reflexivity].
+    + constructor; [|constructor]. apply default_end_kept; [exact Hb | split; assumption].
+    + cbn [map]. rewrite default_end_chars. reflexivity.
+  - rewrite finish_cues_cons. destruct (IH Hcs Kcs) as (I1 & I2 & I3). split; [|split].
+    + constructor; [|exact I1]. destruct fill; [|exact Hc]. destruct next as [t'|]; [rewrite (default_end_bounded _ _ _ Hc); exact Hc|].
+      apply default_end_times, Hc.
+    + constructor; [|exact I2]. destruct fill; [apply default_end_kept; assumption | exact Kc].
+    + change (map cue_chars ((if fill then default_end c else c) :: finish_cues fill blank (c' :: cs')))
+        with (cue_chars (if fill then default_end c else c) :: map cue_chars (finish_cues fill blank (c' :: cs'))).
+      rewrite I3. change (map cue_chars (c :: c' :: cs')) with (cue_chars c :: map cue_chars (c' :: cs')).
+      f_equal. destruct fill; [apply default_end_chars | reflexivity].
+Qed.
+Lemma flat_map_map_chars (cs cs' : list cue) : map cue_chars cs = map cue_chars cs' -> flat_map cue_chars cs = flat_map cue_chars cs'.
+Proof.
+  revert cs'. induction cs as [|c cs IH]; intros [|c' cs'] H; try discriminate; [reflexivity|].
+  cbn [map] in H. injection H as H1 H2. cbn [flat_map]. rewrite H1, (IH cs' H2). reflexivity.
+Qed.
+Lemma finish_group fill blank sees_all fs t next regions cs : items_only blank ->
+  group_ok blank sees_all fs t next regions cs -> group_ok blank sees_all fs t next regions (finish_cues fill blank cs).
+Proof.
+  intros Hb (H1 & H2 & H3). destruct (finish_last_group fill blank t next Hb cs H1 H2) as (F1 & F2 & F3).
+  split; [exact F1|]. split; [exact F2|]. intros Hs Hok. rewrite (flat_map_map_chars _ _ F3). apply H3; assumption.
+Qed.
+(* an earlier group: every cue has an end, so nothing changes *)
+Lemma fill_bounded (fill : bool) blank sees_all fs t t' regions cs :
+  group_ok blank sees_all fs t (Some t') regions cs -> map (fun c => if fill then default_end c else c) cs = cs.
+Proof.
+  intros [H _]. destruct fill; [|apply map_id]. induction cs as [|c cs IH]; [reflexivity|]. inversion H as [|? ? Hc Hcs]; subst.
+  cbn [map]. rewrite (default_end_bounded _ _ _ Hc), (IH Hcs). reflexivity.
+Qed.
+Lemma cue_groups_last R : forall seq rest, cue_groups R seq rest -> rest <> [] -> seq <> [].
+Proof. intros seq rest G H ->. inversion G; subst. contradiction. Qed.
+
+Theorem finish_groups fill blank sees_all fs : items_only blank -> forall seq cs,
+  cue_groups (group_ok blank sees_all fs) seq cs -> cue_groups (group_ok blank sees_all fs) seq (finish_cues fill blank cs).
+Proof.
+  intros Hb seq cs G. induction G as [|t regions seq cs rest Hr G IH]; [constructor|].
   destruct rest as [|r0 rest'].
   - (* all later groups are empty: the last cue, if any, is in this group *)
-    rewrite app_nil_r. rewrite <- (app_nil_r (finish_cues esc cs)). constructor; [|exact G].
+    rewrite app_nil_r. rewrite <- (app_nil_r (finish_cues fill blank cs)). constructor; [|exact G].
+    apply finish_group; assumption.
+  - rewrite finish_cues_app by discriminate. constructor; [|exact IH].
     destruct (next_time seq) as [t'|] eqn:En.
-    + rewrite (finish_not_last esc _ _ _ _ _ _ Hr). exact Hr.
-    + apply finish_group; assumption.
-  - rewrite finish_cues_app by discriminate. constructor; assumption.
+    + rewrite (fill_bounded fill _ _ _ _ _ _ _ Hr). exact Hr.
+    + destruct seq as [|[t1 r1] seq']; [inversion G | discriminate En].
 Qed.
 
 (* ---- the two writers ---------------------------------------------------------------------------------------------------------- *)
 Theorem srt_cues_groups fmt seq cs :
-  srt_cues fmt seq = Ok cs -> cue_groups (group_ok srt_sees_all srt_filters) seq cs.
+  srt_cues fmt seq = Ok cs -> cue_groups (group_ok srt_blank srt_sees_all srt_filters) seq cs.
 Proof.
   unfold srt_cues. destruct (srt_loop fmt seq 0) as [cs0|] eqn:E; [|discriminate]. cbn [bind]. intros H. injection H as <-.
-  destruct srt_filters_form as (c & d & Hf). apply finish_groups; [exact esc_none_keeps|].
+  destruct srt_filters_form as (c & d & Hf). apply finish_groups; [apply cue_blank_items|].
   pose proof (srt_loop_spec fmt seq 0 cs0 E) as B. rewrite Hf in *. apply by_snapshot_groups, B.
 Qed.
 Theorem vtt_cues_groups cfg fs seq cs css :
-  vtt_filters cfg = Some fs -> vtt_cues cfg seq = Ok (cs, css) -> cue_groups (group_ok vtt_sees_all fs) seq cs.
+  vtt_filters cfg = Some fs -> vtt_cues cfg seq = Ok (cs, css) -> cue_groups (group_ok vtt_blank vtt_sees_all fs) seq cs.
 Proof.
   intros Hfs. unfold vtt_cues. rewrite Hfs. destruct (vtt_loop cfg fs seq (mkVttState 0 [])) as [[cs0 st]|] eqn:E; [|discriminate].
   cbn [bind fst snd]. intros H. injection H as <- _.
-  destruct (vtt_filters_form cfg fs Hfs) as (c & d & Hf). apply finish_groups; [exact esc_vtt_keeps|].
+  destruct (vtt_filters_form cfg fs Hfs) as (c & d & Hf). apply finish_groups; [apply cue_blank_items|].
   pose proof (vtt_loop_spec cfg fs seq _ cs0 st E) as B. rewrite Hf in *. apply by_snapshot_groups, B.
 Qed.
 
@@ -207,8 +268,8 @@ Proof.
 Qed.
 
 (* ---- the whole output: all visible characters of all snapshots, once each, in order ------------------------------------------ *)
-(* triggers of the recorded findings writers-skip-ruby / vtt-nested-div-lost: in some snapshot the dispatch of the writer meets an
-   element it has no case for and that holds text *)
+(* in some snapshot the dispatch of the writer meets an element it has no case for and that holds text (outside the content model
+   of model.py: Proofs/C06/Content.v) or, SubRip only, a paragraph's text holds "<" *)
 Definition trig_lost_srt (seq : list (Q * list elem)) : bool :=
   existsb (fun x => negb (srt_sees_all (apply_filters srt_filters (snd x)))) seq.
 Definition trig_lost_vtt (cfg : vtt_config) (seq : list (Q * list elem)) : bool :=
@@ -218,14 +279,14 @@ Definition trig_lost_vtt (cfg : vtt_config) (seq : list (Q * list elem)) : bool 
   end.
 (* snapshots have the shape snapshots of well-formed documents have: regions hold bodies, bodies divisions, text sits in paragraphs *)
 Definition seq_shape (seq : list (Q * list elem)) : bool := forallb (fun x => snapshot_shape (snd x)) seq.
-Definition seq_text (seq : list (Q * list elem)) : text := flat_map (fun x => flat_map leaves_text (snd x)) seq.
+Definition seq_text (seq : list (Q * list elem)) : text := flat_map (fun x => flat_map base_text (snd x)) seq.
 
-Lemma groups_total sees_all fs : forall seq cs,
-  cue_groups (group_ok sees_all fs) seq cs -> seq_shape seq = true ->
+Lemma groups_total blank sees_all fs : forall seq cs,
+  cue_groups (group_ok blank sees_all fs) seq cs -> seq_shape seq = true ->
   existsb (fun x => negb (sees_all (apply_filters fs (snd x)))) seq = false ->
   visc (flat_map cue_chars cs) = visc (seq_text seq).
 Proof.
-  intros seq cs G. induction G as [|t regions seq cs rest [_ Hr] G IH]; intros Hs Ht; [reflexivity|].
+  intros seq cs G. induction G as [|t regions seq cs rest (_ & _ & Hr) G IH]; intros Hs Ht; [reflexivity|].
   cbn [seq_shape forallb snd] in Hs. apply andb_true_iff in Hs as [Hs1 Hs2].
   cbn [existsb snd] in Ht. apply orb_false_iff in Ht as [Ht1 Ht2]. apply negb_false_iff in Ht1.
   unfold seq_text. cbn [flat_map snd]. rewrite flat_map_app, !visc_app, (Hr Hs1 Ht1). f_equal. apply IH; assumption.
@@ -233,12 +294,12 @@ Qed.
 
 Theorem srt_text_total fmt seq cs :
   seq_shape seq = true -> trig_lost_srt seq = false -> srt_cues fmt seq = Ok cs -> visc (flat_map cue_chars cs) = visc (seq_text seq).
-Proof. intros Hs Ht H. exact (groups_total _ _ seq cs (srt_cues_groups fmt seq cs H) Hs Ht). Qed.
+Proof. intros Hs Ht H. exact (groups_total _ _ _ seq cs (srt_cues_groups fmt seq cs H) Hs Ht). Qed.
 Theorem vtt_text_total cfg seq cs css :
   seq_shape seq = true -> trig_lost_vtt cfg seq = false -> vtt_cues cfg seq = Ok (cs, css) -> visc (flat_map cue_chars cs) = visc (seq_text seq).
 Proof.
   intros Hs Ht H. unfold trig_lost_vtt in Ht. destruct (vtt_filters cfg) as [fs|] eqn:Ef.
-  - exact (groups_total _ _ seq cs (vtt_cues_groups cfg fs seq cs css Ef H) Hs Ht).
+  - exact (groups_total _ _ _ seq cs (vtt_cues_groups cfg fs seq cs css Ef H) Hs Ht).
   - unfold vtt_cues in H. rewrite Ef in H. discriminate.
 Qed.
 
@@ -262,13 +323,13 @@ Qed.
 Lemma text_partial_srt fmt seq cs :
   srt_cues fmt seq = Ok cs -> cue_groups (fun _ _ regions group => text_ok srt_sees_all srt_filters regions group) seq cs.
 Proof.
-  intros H. eapply cue_groups_impl; [|exact (srt_cues_groups fmt seq cs H)]. intros t n r x [_ Hx]. exact Hx.
+  intros H. eapply cue_groups_impl; [|exact (srt_cues_groups fmt seq cs H)]. intros t n r x (_ & _ & Hx). exact Hx.
 Qed.
 Lemma text_partial_vtt cfg fs seq cs css :
   vtt_filters cfg = Some fs -> vtt_cues cfg seq = Ok (cs, css) ->
   cue_groups (fun _ _ regions group => text_ok vtt_sees_all fs regions group) seq cs.
 Proof.
-  intros Hfs H. eapply cue_groups_impl; [|exact (vtt_cues_groups cfg fs seq cs css Hfs H)]. intros t n r x [_ Hx]. exact Hx.
+  intros Hfs H. eapply cue_groups_impl; [|exact (vtt_cues_groups cfg fs seq cs css Hfs H)]. intros t n r x (_ & _ & Hx). exact Hx.
 Qed.
 
 (* a non-trivial snapshot sequence meeting the hypotheses: two regions, two divisions each with a paragraph, a nested span, a br *)
